@@ -17,7 +17,7 @@ type c05Input struct {
 	Keys   []string    `json:"keys"`
 }
 
-var c05Alphabet = []string{"/", "=", "-", "7", "a", "é", "0", "b", ".", "*"}
+var c05Alphabet = []string{"/", "=", "-", "7", "a", "é", "0", "b", ".", "*", "+", "9", " "}
 var c05Keys = []string{".name", ".fullname", "/a", "/b", "/gomaxprocs", "/7", "/a=", "/é", "/", "/ab", "k", "a", "goos", "é"}
 
 func c05Quote(k string) string { return strconv.Quote(k) }
@@ -163,7 +163,8 @@ func genC05(o *hx.Out, r *hx.Rng, tier string, replay string) error {
 	if tier == "thorough" {
 		nrand = 6000
 	}
-	pieces := []string{"/a=", "/b=", "/gomaxprocs=", "-", "-8", "-16", "/", "Fib", "/a", "=", "7", "é", "/7=", "/ab=", "x", "*"}
+	pieces := []string{"/a=", "/b=", "/gomaxprocs=", "-", "-8", "-16", "/", "Fib", "/a", "=", "7", "é", "/7=", "/ab=", "x", "*",
+		"-99999999999999999999", "-18446744073709551616", "-+4", "-0", "-007", "+", "-9223372036854775808", "1234567890123456789012", "-٣", "-1e3", "-0x10", "-1_0"}
 	for i := 0; i < nrand; i++ {
 		name := ""
 		if r.Bool() {
